@@ -1,7 +1,7 @@
 SPECIFICATION TraceSpec
 CONSTANTS
   NC = 3
-  NG = 4
+  NG = 6
   RecvTerm = TRUE
   FixDead = TRUE
   SafeClose = TRUE
